@@ -1,11 +1,11 @@
 package core
 
 import (
-	"strings"
 	"fmt"
 	"go/constant"
 	"go/token"
 	"go/types"
+	"strings"
 
 	"golang.org/x/tools/go/ssa"
 )
@@ -16,6 +16,7 @@ import (
 // flags and repeated comparisons of one value with constants are pruned; this
 // is the only path sensitivity used.
 type Path struct {
+	stop   func(ssa.Value) bool // see ResolvesTo
 	Blocks []*ssa.BasicBlock
 	Instrs []ssa.Instruction
 	Conds  []Fact
@@ -64,8 +65,21 @@ func isNillable(t types.Type) bool {
 	return false
 }
 
+// ResolvesTo reports whether v, or one of the values it stands for along the path (each step of Resolve),
+// satisfies is: for predicates that recognise a value by where it is read from rather than by what was stored there.
+func (p *Path) ResolvesTo(v ssa.Value, is func(ssa.Value) bool) bool {
+	old := p.stop
+	p.stop = is
+	r := p.resolve0(v)
+	p.stop = old
+	return is(r)
+}
+
 func (p *Path) resolve0(v ssa.Value) ssa.Value {
 	for i := 0; i < 64; i++ {
+		if p.stop != nil && p.stop(v) {
+			return v
+		}
 		switch x := v.(type) {
 		case *ssa.Phi:
 			r, ok := p.phi[x]
@@ -101,6 +115,21 @@ func (p *Path) resolve0(v ssa.Value) ssa.Value {
 				return v
 			}
 			v = r
+		case *ssa.Field:
+			// a field of a record that a helper built in a private local variable and returned by value
+			ld, ok := p.resolve0(x.X).(*ssa.UnOp)
+			if !ok || ld.Op != token.MUL {
+				return v
+			}
+			a, ok := ld.X.(*ssa.Alloc)
+			if !ok || !privateRecord(a) {
+				return v
+			}
+			st := p.lastFieldStoreBefore(a, x.Field, ld)
+			if st == nil {
+				return v
+			}
+			v = st
 		case *ssa.Call:
 			res, ok := p.rets[x]
 			if !ok || len(res) != 1 {
@@ -131,8 +160,37 @@ func (p *Path) lastStoreBefore(ld *ssa.UnOp) ssa.Value {
 	if ld.Op != token.MUL {
 		return nil
 	}
+	if fa, isFa := ld.X.(*ssa.FieldAddr); isFa {
+		if a, isA := fa.X.(*ssa.Alloc); isA && privateRecord(a) {
+			return p.lastFieldStoreBefore(a, fa.Field, ld)
+		}
+		return nil
+	}
 	a, ok := ld.X.(*ssa.Alloc)
-	if !ok || !privateCell(a) {
+	if !ok {
+		return nil
+	}
+	if !privateCell(a) {
+		// a variable shared with a closure: only a store the path made just before the load, with nothing in
+		// between that could run other code (no call, no channel operation)
+		var last ssa.Value
+		for _, in := range p.Instrs {
+			if in == ssa.Instruction(ld) {
+				return last
+			}
+			switch x := in.(type) {
+			case *ssa.Store:
+				if x.Addr == ssa.Value(a) {
+					last = x.Val
+				}
+			case ssa.CallInstruction, *ssa.Send, *ssa.Select, *ssa.RunDefers:
+				last = nil
+			case *ssa.UnOp:
+				if x.Op == token.ARROW {
+					last = nil
+				}
+			}
+		}
 		return nil
 	}
 	var last ssa.Value
@@ -145,6 +203,183 @@ func (p *Path) lastStoreBefore(ld *ssa.UnOp) ssa.Value {
 		}
 	}
 	return nil
+}
+
+// lastFieldStoreBefore: the value the path last stored into one field of a private record before the load
+// `before` (of the field or of the whole record); the zero value when the record was allocated on the path
+// and the field never assigned; nil when unknown.
+func (p *Path) lastFieldStoreBefore(a *ssa.Alloc, field int, before ssa.Instruction) ssa.Value {
+	var last ssa.Value
+	for _, in := range p.Instrs {
+		if in == before {
+			return last
+		}
+		if in == ssa.Instruction(a) {
+			last = zeroOfField(a, field)
+			continue
+		}
+		if st, ok := in.(*ssa.Store); ok {
+			if st.Addr == ssa.Value(a) {
+				// the whole record replaced: by a copy of another private record, or by something unknown
+				last = nil
+				if ld, isLd := p.resolve0(st.Val).(*ssa.UnOp); isLd && ld.Op == token.MUL {
+					if a2, isA := ld.X.(*ssa.Alloc); isA && a2 != a && privateRecord(a2) {
+						last = p.lastFieldStoreBefore(a2, field, ld)
+					}
+				}
+			} else if fa, isFa := st.Addr.(*ssa.FieldAddr); isFa && fa.X == ssa.Value(a) && fa.Field == field {
+				last = st.Val
+			}
+		}
+	}
+	return nil
+}
+
+func zeroOfField(a *ssa.Alloc, field int) ssa.Value {
+	pt, ok := a.Type().Underlying().(*types.Pointer)
+	if !ok {
+		return nil
+	}
+	st, ok := pt.Elem().Underlying().(*types.Struct)
+	if !ok || field >= st.NumFields() {
+		return nil
+	}
+	t := st.Field(field).Type()
+	b, ok := t.Underlying().(*types.Basic)
+	if !ok {
+		if isNillable(t) {
+			return ssa.NewConst(nil, t)
+		}
+		return nil
+	}
+	switch {
+	case b.Info()&types.IsBoolean != 0:
+		return ssa.NewConst(constant.MakeBool(false), t)
+	case b.Info()&types.IsInteger != 0:
+		return ssa.NewConst(constant.MakeInt64(0), t)
+	case b.Info()&types.IsString != 0:
+		return ssa.NewConst(constant.MakeString(""), t)
+	}
+	return nil
+}
+
+// RecordFieldSources lists, flow-insensitively, every value that may be stored into one field of a private
+// record: direct stores into the field, and the same field of the records it is copied from as a whole (another
+// private record, or the record a statically called helper returns). ok is false when some source is unknown.
+// The zero value of a freshly declared record is not listed.
+func RecordFieldSources(a *ssa.Alloc, field int) (vals []ssa.Value, ok bool) {
+	seen := map[*ssa.Alloc]bool{}
+	ok = true
+	var whole func(v ssa.Value)
+	var rec func(a *ssa.Alloc)
+	whole = func(v ssa.Value) {
+		switch x := v.(type) {
+		case *ssa.UnOp:
+			if a2, isA := x.X.(*ssa.Alloc); isA && x.Op == token.MUL {
+				rec(a2)
+				return
+			}
+		case *ssa.Extract:
+			if c, isC := x.Tuple.(*ssa.Call); isC {
+				if g := c.Call.StaticCallee(); g != nil && len(g.Blocks) > 0 {
+					for _, b := range g.Blocks {
+						if ret, isR := b.Instrs[len(b.Instrs)-1].(*ssa.Return); isR && x.Index < len(ret.Results) {
+							whole(ret.Results[x.Index])
+						}
+					}
+					return
+				}
+			}
+		case *ssa.Call:
+			if g := x.Call.StaticCallee(); g != nil && len(g.Blocks) > 0 {
+				for _, b := range g.Blocks {
+					if ret, isR := b.Instrs[len(b.Instrs)-1].(*ssa.Return); isR && len(ret.Results) == 1 {
+						whole(ret.Results[0])
+					}
+				}
+				return
+			}
+		}
+		ok = false
+	}
+	rec = func(a *ssa.Alloc) {
+		if seen[a] {
+			return
+		}
+		seen[a] = true
+		if !privateRecord(a) {
+			ok = false
+			return
+		}
+		for _, r := range *a.Referrers() {
+			switch x := r.(type) {
+			case *ssa.Store:
+				whole(x.Val)
+			case *ssa.FieldAddr:
+				if x.Field != field {
+					continue
+				}
+				for _, fr := range *x.Referrers() {
+					if st, isSt := fr.(*ssa.Store); isSt {
+						vals = append(vals, st.Val)
+					}
+				}
+			}
+		}
+	}
+	rec(a)
+	return vals, ok
+}
+
+var privateRecordCache = map[*ssa.Alloc]bool{}
+
+// privateRecord: a struct variable whose address goes nowhere: it is only loaded or stored as a whole, and its
+// fields are only loaded and stored directly.
+func privateRecord(a *ssa.Alloc) bool {
+	if v, ok := privateRecordCache[a]; ok {
+		return v
+	}
+	ok := false
+	if pt, isP := a.Type().Underlying().(*types.Pointer); isP {
+		_, ok = pt.Elem().Underlying().(*types.Struct)
+	}
+	if refs := a.Referrers(); ok && refs != nil {
+		for _, r := range *refs {
+			switch x := r.(type) {
+			case *ssa.Store:
+				if x.Addr != ssa.Value(a) {
+					ok = false
+				}
+			case *ssa.UnOp:
+				if x.Op != token.MUL {
+					ok = false
+				}
+			case *ssa.FieldAddr:
+				if frefs := x.Referrers(); frefs != nil {
+					for _, fr := range *frefs {
+						switch y := fr.(type) {
+						case *ssa.Store:
+							if y.Addr != ssa.Value(x) {
+								ok = false
+							}
+						case *ssa.UnOp:
+							if y.Op != token.MUL {
+								ok = false
+							}
+						case *ssa.DebugRef:
+						default:
+							ok = false
+						}
+					}
+				}
+			case *ssa.DebugRef:
+			default:
+				ok = false
+			}
+		}
+	}
+	privateRecordCache[a] = ok
+	return ok
 }
 
 var privateCellCache = map[*ssa.Alloc]bool{}
@@ -604,7 +839,9 @@ func EnumPathsSeed(start *ssa.BasicBlock, idx int, limit int, maxVisits int, see
 				}
 				if rec || callee == start.Parent() || (p.inl[callee] && !isSelector(callee)) {
 					// a callee is stepped into at most once per path: its parameters then have one
-					// binding on the path, so facts about them stay unambiguous
+					// binding on the path, so facts about them stay unambiguous. A later execution of the
+					// same call (a loop) is an unknown result, not the result of the first one.
+					delete(p.rets, t)
 					continue
 				}
 				p.inl[callee] = true
@@ -982,7 +1219,6 @@ func nonNilByConstruction(v ssa.Value) bool {
 	return false
 }
 
-
 // isSelector: a small function that only chooses among its parameters and
 // constants (min, max, clamp, "default if zero"): no calls, no stores, and every
 // result is a parameter, a constant, or a choice of those. Such a function may
@@ -1032,7 +1268,6 @@ func isSelector(f *ssa.Function) bool {
 	return ok
 }
 
-
 var globalInitOnly = map[*ssa.Global]bool{}
 
 // globalAssignedOnlyInInit: no function other than its package's initialiser stores to g.
@@ -1066,7 +1301,6 @@ func globalAssignedOnlyInInit(g *ssa.Global) bool {
 	return ok
 }
 
-
 // pathStop, when set, cuts every path at the entry of a block it accepts (see EnumPathsStop).
 var pathStop func(b *ssa.BasicBlock) bool
 
@@ -1080,3 +1314,7 @@ func EnumPathsStop(start *ssa.BasicBlock, idx int, limit int, maxVisits int, sto
 	defer func() { pathStop = old }()
 	return EnumPathsSeed(start, idx, limit, maxVisits, nil, yield)
 }
+
+// Canon names a value as the path sees it: two syntactically different computations of the same
+// field of the same value (or the same stable field load) get the same name.
+func (p *Path) Canon(v ssa.Value) string { return p.canon(v) }
